@@ -195,6 +195,10 @@ def run(rep):
     rep.note("R5 positive fixture flagged: ok")
 
 
+
+    rule_field_lookup(rep)
+
+
 def _args_are_params(g, call_t, outer):
     """get_storage_key(storage_field_path, key): both derive from the enclosing function's parameters of those names."""
     return _args_are_named(g, call_t, ("storage_field_path", "key"))
@@ -229,3 +233,32 @@ def _zip_keys_ok(F, ser, gk):
 def _root_const(f, o, name):
     r = panics.root_local(f, o)
     return bool(r and r[0] == "c" and name in r[1])
+
+
+def rule_field_lookup(rep):
+    """R6: a storage access `storage::a::b.f` is compiled against the declared field it names: the lookup over the declared fields
+    must match the field name AND the whole namespace path (equal length, equal elements, or `==` on the paths). A prefix / suffix /
+    unchecked-zip comparison resolves `storage.f` to `storage::ns.f` when that is declared first, and the access then reads the
+    other field's key (its explicit `in` key included)."""
+    rel = "sway-core/src/language/ty/declaration/storage.rs"
+    t = tab.tree(rel)
+    f = tab.fn(t, "apply_storage_access")
+    finds = [n for n in tab.walk(f["body"]) if n.get("k") == "MethodCall" and n["method"] in ("find", "position", "filter", "find_map", "any") and
+             "storage_fields" in tab.show(n["recv"]) and n["args"] and n["args"][0].get("k") == "Closure"]
+    if len(finds) != 1:
+        raise AnalysisError(f"apply_storage_access: expected one lookup over storage_fields, found {len(finds)}")
+    cl = finds[0]["args"][0]
+    param = tab.show(cl["inputs"][0])
+    body = tab.show(cl["body"])
+    name_eq = re.search(r"&?%s\.name==\*?&?first_field|first_field==&?%s\.name" % (re.escape(param), re.escape(param)), body) is not None
+    ns = r"%s\.namespace_names" % re.escape(param)
+    whole_eq = re.search(r"%s(\.as_slice\(\))?==\*?&?namespace_names|namespace_names(\.as_slice\(\))?==&?%s|%s\.eq\(&?namespace_names\)|%s\.iter\(\)\.eq\(namespace_names" % (ns, ns, ns, ns), body) is not None
+    len_eq = re.search(r"%s\.len\(\)==namespace_names\.len\(\)|namespace_names\.len\(\)==%s\.len\(\)" % (ns, ns), body) is not None
+    zip_all = re.search(r"%s\.iter\(\)\.zip\(namespace_names\.iter\(\)\)\.all\(\|\((\w+),(\w+)\)\|\(?\1==\2\)?\)" % ns, body) is not None
+    partial = re.findall(r"\.(starts_with|ends_with|contains|strip_prefix|strip_suffix)\(", body)
+    ok = name_eq and (whole_eq or (len_eq and zip_all)) and not partial
+    rep.ob("R6-accessed-field-found-by-full-path", "apply_storage_access", ok, rel, finds[0]["l"],
+           "the declared field for a storage access must be found by its name and its complete namespace path"
+           + (f" (found a partial comparison: {sorted(set(partial))})" if partial else "" if name_eq else " (the field name is not compared)")
+           + ": otherwise `storage.f` can resolve to a field `f` of a namespace declared earlier and is read from that field's slot")
+
